@@ -186,6 +186,64 @@ def run_tsan(binary, prop, seed, VERIF, TARGET, log):
     return res
 
 
+def run_valgrind(binary, prop, seed, VERIF, TARGET, log):
+    """E5: valgrind memcheck over CPython + the real similari.so driven by a slice of the C18 scripts.
+    Only report blocks with a frame inside similari.so count (CPython's own noise is constant and excluded by that rule)."""
+    rundir = os.path.join(TARGET, "run", prop, "valgrind")
+    os.makedirs(rundir, exist_ok=True)
+    exe = os.path.join(TARGET, "native", "debug", binary)
+    t0 = time.time()
+    res = {"summary": {"engine": "valgrind-memcheck", "binary": "python3 + similari.so"}, "violations": [], "inconclusive": [], "evaluations": 0}
+    n = 6
+    procs = []
+    for i in range(n):
+        out = os.path.join(rundir, f"shard_{i}.json")
+        for fpath in (out, os.path.join(rundir, f"valgrind_{i}.log")):
+            if os.path.exists(fpath):
+                os.remove(fpath)
+        lg = open(os.path.join(rundir, f"shard_{i}.log"), "w")
+        cmd = [exe, "--seed", str(seed + 7), "--shard", f"{i}/{n}", "--tier", "quick", "--out", out, "--param", "cases=36",
+               "--param", "valgrind=1", "--param", f"rundir={rundir}"]
+        procs.append((i, subprocess.Popen(cmd, stdout=lg, stderr=subprocess.STDOUT), out, lg))
+    blocks_total = 0
+    ours = 0
+    for i, p, out, lg in procs:
+        try:
+            rc = p.wait(timeout=2400)
+        except subprocess.TimeoutExpired:
+            p.kill(); p.wait(); rc = "timeout"
+        lg.close()
+        if rc == "timeout":
+            res["inconclusive"].append(f"valgrind shard {i}: timeout")
+            continue
+        vlog = os.path.join(rundir, f"valgrind_{i}.log")
+        if not os.path.exists(vlog):
+            res["inconclusive"].append(f"valgrind shard {i}: no log")
+            continue
+        text = open(vlog, errors="replace").read()
+        # split into report blocks (separated by lines holding only the ==pid== prefix)
+        blocks = re.split(r"\n==\d+== \n", text)
+        for b in blocks:
+            if not re.search(r"(Invalid (read|write|free)|uninitialised|Mismatched free|definitely lost|Source and destination overlap)", b):
+                continue
+            blocks_total += 1
+            if "similari" in b and "definitely lost" not in b:
+                ours += 1
+                first = [l for l in b.splitlines() if "similari" in l][:1]
+                kind = re.search(r"(Invalid (?:read|write|free)|[Uu]se of uninitialised value|Conditional jump or move depends on uninitialised|Mismatched free|Source and destination overlap)", b)
+                res["violations"].append({"signature": f"{prop}/valgrind/{(kind.group(1) if kind else 'report').replace(' ', '-')}", "seed": seed, "shard": i, "nshards": n,
+                                          "tier": "thorough", "params": {"valgrind": 1}, "index": -1, "detail": {"block": b[:2500], "first_similari_frame": first}})
+        if os.path.exists(out):
+            try:
+                rep = json.load(open(out))
+                res["evaluations"] += rep.get("evaluations", 0)
+                res["violations"] += rep.get("violations", [])
+            except Exception:
+                pass
+    res["summary"].update({"report_blocks_total": blocks_total, "report_blocks_with_similari_frame": ours, "wall_s": round(time.time() - t0, 1)})
+    return res
+
+
 def run_engine(eng, prop, seed, tier, VERIF, TARGET, log):
     kind, binary = eng.split(":")
     log(f"engine {eng} ...")
@@ -193,4 +251,6 @@ def run_engine(eng, prop, seed, tier, VERIF, TARGET, log):
         return run_miri(binary, prop, seed, VERIF, TARGET, log)
     if kind == "tsan":
         return run_tsan(binary, prop, seed, VERIF, TARGET, log)
+    if kind == "valgrind":
+        return run_valgrind(binary, prop, seed, VERIF, TARGET, log)
     raise ValueError(eng)
